@@ -2234,6 +2234,158 @@ pub fn check_c20(ix: &Ix<'_>, v: &mut Vec<Violation>) {
     }
 }
 
+
+// ------------------------------------------------------------------------------------------
+// C19: handshake gate, version routing, negotiated limits are the ones enforced
+
+pub fn check_c19(ix: &Ix<'_>, v: &mut Vec<Violation>) {
+    let role = ix.role();
+    let out = ix.out;
+    if out.budget_hit || out.panic.is_some() || ix.settle_seq.is_none() {
+        return;
+    }
+    let conn = 0usize;
+    let v5 = ix.ver == Ver::V5;
+    let cfg = &out.plan.cfg;
+    let first = out.plan.tags.iter().find_map(|t| t.strip_prefix("first:")).unwrap_or("connect").to_string();
+    let limit: Option<(String, u32)> = out.plan.tags.iter().find_map(|t| {
+        let r = t.strip_prefix("limit:")?;
+        let (n, val) = r.rsplit_once(':')?;
+        Some((n.to_string(), val.parse().ok()?))
+    });
+    let hs = ix.gates.iter().find(|g| g.conn == conn && g.kind == GateKind::Handshake);
+    let accepted_at = hs.and_then(|g| match &g.exit {
+        Some((xs, Outcome::Ok)) => Some(*xs),
+        _ => None,
+    });
+    let handlers: Vec<&G> = ix.gates.iter().filter(|g| g.conn == conn && matches!(g.kind, GateKind::Publish | GateKind::Proto)).collect();
+    let way = if cfg.combined { "combined" } else { "plain" };
+
+    // (1) the handshake gate
+    for g in &handlers {
+        match accepted_at {
+            None => {
+                viol(v, "C19", format!("C19/handler-without-accepted-connect/{role}/{way}/{}", first.split(':').next().unwrap_or("")), format!("a publish/protocol handler ran (gate {}) although no CONNECT was accepted (first packet: {first})", g.id), g.enter);
+                return;
+            }
+            Some(a) if g.enter < a => {
+                viol(v, "C19", format!("C19/handler-before-acceptance/{role}/{way}"), format!("handler gate {} entered at step {} before the handshake service accepted the CONNECT at step {a}", g.id, g.enter), g.enter);
+                return;
+            }
+            _ => {}
+        }
+    }
+    // (2) what must end the connection does
+    let must_end = !(first == "connect" || first == "slow-handshake");
+    let ended = ix.conn_done.iter().any(|c| c.1 == conn);
+    if must_end {
+        if hs.is_some() && !first.starts_with("refused") && first != "hs-error" {
+            viol(v, "C19", format!("C19/handshake-service-saw-invalid-first-packet/{role}/{way}/{}", first.split(':').next().unwrap_or("")), format!("first packet {first} reached the application's handshake service"), hs.map_or(0, |g| g.enter));
+        }
+        if !ended {
+            viol(v, "C19", format!("C19/connection-not-ended/{role}/{way}/{}", first.split(':').next().unwrap_or("")), format!("first packet {first}: the connection was still up at the end of the run"), ix.last_seq);
+        }
+        if let Some(code) = first.strip_prefix("refused:").and_then(|c| c.parse::<u8>().ok()) {
+            let ack = ix.eps.iter().find(|e| e.conn == conn && matches!(&e.pkt, Pkt::ConnAck(_)));
+            match ack {
+                Some(EpP { pkt: Pkt::ConnAck(a), .. }) if a.code == code => {}
+                Some(e) => viol(v, "C19", format!("C19/wrong-refusing-connack/{role}/{way}"), format!("handshake refused with code {code}, CONNACK on the wire: {}", e.pkt.brief()), e.seq),
+                None => viol(v, "C19", format!("C19/no-refusing-connack/{role}/{way}"), format!("handshake refused with code {code} but no CONNACK was written before the connection was closed"), ix.last_seq),
+            }
+        }
+        return;
+    }
+    // (3) version routing: the service of the CONNECT's protocol level handled it, nothing was lost
+    let Some(h) = hs else {
+        if ix.sent.iter().any(|s| s.conn == conn && matches!(s.pkt, Some(Pkt::Connect(_))) && s.delivered.is_some()) {
+            viol(v, "C19", format!("C19/connect-not-handled/{role}/{way}"), "a valid CONNECT was delivered but the handshake service was never called".into(), ix.last_seq);
+        }
+        return;
+    };
+    if let GateDesc::Handshake { brief } = &h.desc {
+        let by_v5 = brief.contains(" rm=");
+        if by_v5 != v5 {
+            viol(v, "C19", format!("C19/wrong-version-service/{role}/{way}"), format!("CONNECT with protocol level {} was handled by the MQTT {} service", if v5 { 5 } else { 4 }, if by_v5 { "5" } else { "3.1.1" }), h.enter);
+            return;
+        }
+        let want = format!("CONNECT id=c0 ka={} ", out.plan.peer.connect.keep_alive);
+        if !brief.starts_with(&want) {
+            viol(v, "C19", format!("C19/connect-garbled/{role}/{way}"), format!("the handshake service saw {brief:?}, the peer sent {want:?}..."), h.enter);
+        }
+    }
+    let Some(acc) = accepted_at else { return };
+    // pipelined traffic is handled once the connection is accepted
+    let stop = ix.stops.iter().find(|s| s.1 == conn);
+    for s in ix.sent.iter().filter(|s| s.conn == conn && s.delivered.is_some()) {
+        if let Some(Pkt::Publish(p)) = &s.pkt
+            && (p.topic == "t/50" || p.topic == "t/51")
+            && !ix.pub_gates(conn).any(|(_, seen)| seen.topic == p.topic)
+            && stop.is_none()
+            && !ended
+        {
+            viol(v, "C19", format!("C19/pipelined-packet-lost/{role}/{way}"), format!("PUBLISH {:?} sent right behind CONNECT was never handled after the connection was accepted (step {acc})", p.topic), ix.last_seq);
+        }
+    }
+    // (4) MQTT 5: CONNACK announces the limits in force
+    if v5 && let Some(EpP { pkt: Pkt::ConnAck(a), seq, .. }) = ix.eps.iter().find(|e| e.conn == conn && matches!(&e.pkt, Pkt::ConnAck(_))) {
+        let rm = cfg.hs_receive_max.unwrap_or(cfg.max_receive);
+        let got_rm = crate::refcodec::prop_u16(&a.props, 33).unwrap_or(65535);
+        if rm != 0 && got_rm != rm {
+            viol(v, "C19", format!("C19/connack-announces-other-limit/{role}/receive-maximum"), format!("Receive Maximum in force {rm}, CONNACK announces {got_rm}"), *seq);
+        }
+        let q = cfg.hs_max_qos.unwrap_or(cfg.max_qos).min(2);
+        let got_q = crate::refcodec::prop_byte(&a.props, 36).unwrap_or(2);
+        if got_q != q {
+            viol(v, "C19", format!("C19/connack-announces-other-limit/{role}/maximum-qos"), format!("Maximum QoS in force {q}, CONNACK announces {got_q}"), *seq);
+        }
+        let al = cfg.hs_topic_alias_max.unwrap_or(cfg.max_topic_alias);
+        let got_al = crate::refcodec::prop_u16(&a.props, 34).unwrap_or(0);
+        if got_al != al {
+            viol(v, "C19", format!("C19/connack-announces-other-limit/{role}/topic-alias-maximum"), format!("Topic Alias Maximum in force {al}, CONNACK announces {got_al}"), *seq);
+        }
+        let ms = cfg.hs_max_packet_size.unwrap_or(cfg.max_size);
+        let got_ms = crate::refcodec::prop_u32(&a.props, 39).unwrap_or(0);
+        if ms != 0 && got_ms != ms {
+            viol(v, "C19", format!("C19/connack-announces-other-limit/{role}/maximum-packet-size"), format!("Maximum Packet Size in force {ms}, CONNACK announces {got_ms}"), *seq);
+        }
+        // keep-alive imposed by the server is announced
+        if let Some(k) = cfg.hs_keepalive {
+            let client = out.plan.peer.connect.keep_alive;
+            let got = crate::refcodec::prop_u16(&a.props, 19);
+            if client > k && got != Some(k) {
+                viol(v, "C19", format!("C19/imposed-keepalive-not-announced/{role}"), format!("server imposes keep-alive {k} on a client that asked for {client}, CONNACK announces {got:?}"), *seq);
+            }
+        }
+    }
+    // (5) enforcement at exactly the negotiated value: the probe at the limit is handled, the one beyond is not
+    if let Some((name, val)) = limit {
+        let probes: Vec<&Sent> = ix
+            .sent
+            .iter()
+            .filter(|s| s.conn == conn && matches!(&s.pkt, Some(Pkt::Publish(p)) if p.topic.starts_with("t/6") || p.topic.starts_with("t/7") || p.topic.starts_with("t/8") || p.topic.starts_with("t/9")))
+            .collect();
+        if probes.len() < 2 || probes.iter().any(|s| s.delivered.is_none()) {
+            return;
+        }
+        let handled = |s: &Sent| matches!(&s.pkt, Some(Pkt::Publish(p)) if ix.pub_gates(conn).any(|(_, seen)| seen.topic == p.topic || (p.topic.is_empty())));
+        let (within, beyond) = probes.split_at(probes.len() - 1);
+        for s in within {
+            if !handled(s) {
+                let t = if let Some(Pkt::Publish(p)) = &s.pkt { p.topic.clone() } else { String::new() };
+                viol(v, "C19", format!("C19/refused-within-limit/{role}/{name}"), format!("{name} in force {val}: PUBLISH {t:?} stays within it but never reached a handler (connection: {:?})", stop.map(|s| &s.2)), ix.last_seq);
+                return;
+            }
+        }
+        let b = beyond[0];
+        if handled(b) {
+            let t = if let Some(Pkt::Publish(p)) = &b.pkt { p.topic.clone() } else { String::new() };
+            viol(v, "C19", format!("C19/limit-not-enforced/{role}/{name}"), format!("{name} in force {val}: PUBLISH {t:?} exceeds it and reached a handler"), ix.last_seq);
+        } else if !matches!(stop, Some((_, _, StopClass::Protocol(_)))) && !ended {
+            viol(v, "C19", format!("C19/limit-violation-ignored/{role}/{name}"), format!("{name} in force {val}: the exceeding PUBLISH neither reached a handler nor ended the connection"), ix.last_seq);
+        }
+    }
+}
+
 // ------------------------------------------------------------------------------------------
 // C16: no well-formed sequence panics or hangs an endpoint
 
@@ -2323,6 +2475,9 @@ pub fn check_all(out: &RunOut) -> Vec<Violation> {
         }
         "C20" => {
             check_c20(&ix, &mut v);
+        }
+        "C19" => {
+            check_c19(&ix, &mut v);
         }
         "C15" => {
             check_c15(&ix, &mut v);
